@@ -107,7 +107,9 @@ func buildLines(c seCase) ([]seLine, []byte) {
 			termLen = 2
 		}
 		if i == len(c.Tokens)-1 && c.Unterminated {
-			termLen = 0 // the stream ends after this line's last byte: nothing else has to fit
+			// the stream ends after this line's last byte; the reader only learns that the line is
+			// over when it asks for more, which it does while there is room for one more byte
+			termLen = 1
 		}
 		if t.Fit == "long" {
 			want := c.BufSize
